@@ -6,7 +6,8 @@
   * `Kin.baseOf/toolOf`   — accumulated base / tool+frame transforms of a stack
   * `Kin.WF`              — every wrapper isometry carries a unit quaternion
   * `Kin.baseFrameOnly`   — stacks built from Base and Frame only
-  * `Kin.stack_forward`, `Kin.stack_maps_back`, `Kin.stack_maps_back_same`, `Kin.links_last`
+  * `Kin.stack_forward`, `Kin.stack_maps_back`, `Kin.stack_maps_back_conv`,
+    `Kin.stack_maps_back_same`, `Kin.links_last`
   * `slot`, `J6.get_slot`, `J6.set_slot`, `paraUncouple_paraCouple`, `paraCouple_paraUncouple`
 -/
 import OpwVerif.Wrappers
@@ -14,6 +15,7 @@ import OpwVerif.Real
 import OpwVerif.Lemmas.GeomReal
 import OpwVerif.Lemmas.Chain
 import OpwVerif.Lemmas.Sound
+import Mathlib.Tactic.IntervalCases
 
 namespace Opw
 
@@ -253,6 +255,29 @@ theorem stack_maps_back : ∀ (k : Kin ℝ), k.plain → k.WF → ∀ (pose : Is
   | para _ _ _ _, hp, _, _, _, _, _ => hp.elim
   | shape _ _, hp, _, _, _, _, _ => hp.elim
 
+/-- converse of `stack_maps_back` (no hypothesis on `pose`): if the stack's forward at `s` is the
+pose, the core's forward at `s` is the local pose -/
+theorem stack_maps_back_conv : ∀ (k : Kin ℝ), k.plain → k.WF → ∀ (pose : Iso ℝ) s,
+    k.forward s = pose → _root_.Opw.forward k.core.p s = k.localPose pose
+  | opw _, _, _, _, _, h => h
+  | tool i t, hp, hw, pose, s, h => by
+    refine stack_maps_back_conv i hp hw.1 (pose.mul t.inv) s ?_
+    rw [← h]
+    show i.forward s = ((i.forward s).mul t).mul t.inv
+    rw [Iso.mul_assoc _ t t.inv (forward_unit i hw.1 s) hw.2, Iso.mul_inv_cancel t hw.2, Iso.mul_one]
+  | base i b, hp, hw, pose, s, h => by
+    refine stack_maps_back_conv i hp hw.1 (b.inv.mul pose) s ?_
+    rw [← h]
+    show i.forward s = b.inv.mul (b.mul (i.forward s))
+    rw [← Iso.mul_assoc b.inv b _ (Iso.inv_unit b hw.2) hw.2, Iso.inv_mul_cancel b hw.2, Iso.one_mul]
+  | frame i f, hp, hw, pose, s, h => by
+    refine stack_maps_back_conv i hp hw.1 (pose.mul f.inv) s ?_
+    rw [← h]
+    show i.forward s = ((i.forward s).mul f).mul f.inv
+    rw [Iso.mul_assoc _ f f.inv (forward_unit i hw.1 s) hw.2, Iso.mul_inv_cancel f hw.2, Iso.mul_one]
+  | para _ _ _ _, hp, _, _, _, _ => hp.elim
+  | shape _ _, hp, _, _, _, _ => hp.elim
+
 /-- the same with "same rigid motion" instead of equality -/
 theorem stack_maps_back_same : ∀ (k : Kin ℝ), k.plain → k.WF → ∀ (pose : Iso ℝ),
     pose.q.normSq = 1 → ∀ s, Iso.Same (_root_.Opw.forward k.core.p s) (k.localPose pose) →
@@ -303,6 +328,7 @@ end Kin
 
 /-! ## Real arithmetic: parallelogram coupling -/
 
+set_option linter.unnecessarySeqFocus false in
 /-- on distinct slots below 6, uncoupling undoes coupling -/
 theorem paraUncouple_paraCouple_lt (s : ℝ) (d c : Nat) (hd : d < 6) (hc : c < 6) (h : d ≠ c)
     (x : J6 ℝ) : paraUncouple s d c (paraCouple s d c x) = x := by
@@ -311,6 +337,7 @@ theorem paraUncouple_paraCouple_lt (s : ℝ) (d c : Nat) (hd : d < 6) (hc : c < 
     | exact absurd rfl h
     | (apply J6.ext' <;> simp only [paraUncouple, paraCouple, J6.get, J6.set] <;> ring)
 
+set_option linter.unnecessarySeqFocus false in
 theorem paraCouple_paraUncouple_lt (s : ℝ) (d c : Nat) (hd : d < 6) (hc : c < 6) (h : d ≠ c)
     (x : J6 ℝ) : paraCouple s d c (paraUncouple s d c x) = x := by
   interval_cases d <;> interval_cases c <;>
